@@ -30,7 +30,8 @@ EXCS = ['ValueError', 'KeyError', 'NeedsArgs', 'CustomDerived', 'Chained',
         # classes with unusual object protocols
         'Unhashable', 'UnhashableChained', 'AlwaysEqual', 'FalsyError',
         'BufferError', 'NotADirectoryError',
-        'ImportError', 'SyntaxError', 'TimeoutError', 'MemoryError']
+        'ImportError', 'SyntaxError', 'TimeoutError', 'MemoryError',
+        'NotImplementedError']
 MSGS = [None, 'café ☃', 'line1\nline2\n  indented', 'x' * 300,
         '%s %d {}', '',
         # what os.fsdecode() makes of an undecodable file name, control and
@@ -52,6 +53,15 @@ PYTHONS = ['/root/.pyenv/versions/3.9.18/bin/python',
 
 def batch_size(tier):
     return 12
+
+
+def _exc_for(rng, hook):
+    """An exception class for a layer hook (out of tearDown a
+    NotImplementedError is no error but "cannot be torn down")."""
+    x = rng.choice(EXCS)
+    while hook == 'tearDown' and x == 'NotImplementedError':
+        x = rng.choice(EXCS)
+    return x
 
 
 def make_case(rng, idx, tier):
@@ -125,7 +135,7 @@ def make_case(rng, idx, tier):
     elif rng.random() < 0.3:
         ln = rng.choice([ls['name'] for ls in layers])
         hook = rng.choice(['setUp', 'tearDown'])
-        plan = {'layers': {ln: {hook: 'raise:' + rng.choice(EXCS)}}}
+        plan = {'layers': {ln: {hook: 'raise:' + _exc_for(rng, hook)}}}
     withb0 = [ls for ls in layers if ls.get('bases')]
     if withb0 and not mi_family and rng.random() < 0.12:
         # two tear-downs of one pass go wrong in different ways: one raises
@@ -133,7 +143,8 @@ def make_case(rng, idx, tier):
         ls = rng.choice(withb0)
         pair = [ls['name'], rng.choice(ls['bases'])]
         rng.shuffle(pair)
-        plan = {'layers': {pair[0]: {'tearDown': 'raise:' + rng.choice(EXCS)},
+        plan = {'layers': {pair[0]: {'tearDown': 'raise:' + _exc_for(
+            rng, 'tearDown')},
                            pair[1]: {'tearDown': 'nie'}}}
     if rng.random() < 0.25:
         # a layer that cannot be torn down - preferably one with bases, so
@@ -239,7 +250,8 @@ def run_case(case):
                     for e in events)]
     lfired = [e for e in events if e['k'] in ('layer.setUp.exit',
                                                'layer.tearDown.exit')
-              and not e.get('ok') and e.get('exc') != 'NotImplementedError']
+              and not e.get('ok') and (e['k'] == 'layer.setUp.exit' or
+                                       e.get('exc') != 'NotImplementedError')]
     counters['faults_fired'] = len(fired) + len(lfired)
     counters['multi_event'] = 1 if set(multi) & set(fired) else 0
     counters['buffer_cases'] = 1 if opts.get('buffer') else 0
